@@ -41,7 +41,7 @@ def gen_cb(rng: Any, ids: list[int], depth: int, allow_service: bool, p_raise: f
     routes = ["direct", "direct", "shortcut", "resource", "ctxteardown"] + (["service"] if allow_service and depth == 0 else [])
     route = rng.choice(routes)
     kind = rng.choice(["sync", "async", "async", "sync_awaitable"])
-    form = rng.choice(["function", "function", "function", "partial", "object", "unhashable_object"])  # how the callable is given
+    form = rng.choice(["function", "function", "function", "partial", "object", "unhashable_object", "misleading_signature"])  # how the callable is given
     if route == "ctxteardown":
         kind = "async"
     cb: dict[str, Any] = {"id": cid, "route": route, "kind": kind, "pass_exception": False, "steps": [], "raises": None, "children": [], "form": form}
@@ -277,6 +277,22 @@ class Run:
             import functools
 
             probe = functools.partial(probe)
+        elif form == "misleading_signature":
+            # a decorated callback: functools.wraps makes introspection report the wrapped function's signature - one that does
+            # not fit the way the callback is called - while the callable itself accepts the call
+            import functools
+
+            inner_probe = probe
+            if cb["pass_exception"]:
+                def original() -> None:  # pragma: no cover - never called
+                    raise AssertionError
+            else:
+                def original(connection: Any, mode: Any) -> None:  # type: ignore[misc]  # pragma: no cover - never called
+                    raise AssertionError
+
+            @functools.wraps(original)
+            def probe(*a: Any, **k: Any) -> Any:  # noqa: F811
+                return inner_probe(*a, **k)
         elif form in ("object", "unhashable_object"):
             inner = probe
             # "unhashable": a callable object with __eq__ but no __hash__ (what a plain @dataclass with __call__ is)
@@ -741,7 +757,10 @@ def features(run: Run) -> dict[str, int]:
         inc(f"route_{r}")
     for cid in order:
         if byid[cid].get("form", "function") != "function" and byid[cid]["route"] in ("direct", "shortcut", "resource"):
-            inc(f"callback_form_{byid[cid]['form'].replace('unhashable_', '')}")
+            if byid[cid]["form"] == "misleading_signature":
+                inc("callback_form_misleading_signature")
+            else:
+                inc(f"callback_form_{byid[cid]['form'].replace('unhashable_', '')}")
             if byid[cid]["form"] == "unhashable_object":
                 inc("callback_form_unhashable_object")
     if any(byid[cid]["route"] == "resource" and byid[cid].get("ntypes", 0) > 1 for cid in order):
